@@ -182,6 +182,44 @@ pub fn check(tmp: &Path) -> Option<String> {
                             break 'all;
                         }
                     };
+                    // several input files: the tool names the files that parse and stops at the first that does
+                    // not, reporting its errors as it does for one file and a failing exit status
+                    if hi == 0 {
+                        if let Some(good) = inputs.iter().position(|x| matches!(guarded(std::panic::AssertUnwindSafe(|| api_answer(body, x, rk))), Ok(Ok(ref v)) if v.is_empty())) {
+                            let gp = dir.join(format!("in{}_{}.txt", gi, good));
+                            let _ = std::fs::write(&gp, inputs[good]);
+                            let mut cmd = Command::new(&bin);
+                            cmd.arg("-q").arg("-r").arg(flag).arg("-y").arg("original").arg(&lp).arg(&yp).arg(&gp).arg(&ip);
+                            if let Ok(o2) = cmd.output() {
+                                let text2 = format!("{}{}", String::from_utf8_lossy(&o2.stdout), String::from_utf8_lossy(&o2.stderr));
+                                let got2 = np_answer(&text2);
+                                let named = |p: &Path| text2.contains(&format!("parsed: {}", p.display()));
+                                let lexerr = want.iter().any(|x| x == "LEX");
+                                let bad = if !named(&gp) {
+                                    Some("does not name the first file, which parses, as parsed".to_string())
+                                } else if want.is_empty() && (!named(&ip) || !o2.status.success() || ii == good && text2.matches("parsed: ").count() != 2) {
+                                    Some("does not name the second file, which parses too, as parsed with a successful exit status".to_string())
+                                } else if !want.is_empty() && (named(&ip) || o2.status.success()) {
+                                    Some(format!("presents the second file as parsed (exit status {:?}); the library reports {:?} for it", o2.status.code(), want))
+                                } else if !lexerr && got2 != want {
+                                    Some(format!("reports {:?} for the second file; the library reports {:?}", got2, want))
+                                } else {
+                                    None
+                                };
+                                if let Some(why) = bad {
+                                    verdict = Some(format!(
+                                        "nimbleparse-end-to-end: `nimbleparse -r {} -y original` on grammar [{}] with the two input files {:?} and {:?} {}",
+                                        flag,
+                                        body.replace('\n', " ").trim(),
+                                        inputs[good],
+                                        input,
+                                        why
+                                    ));
+                                    break 'all;
+                                }
+                            }
+                        }
+                    }
                     // a lexing error ends both; the tool prints it its own way: compare up to it
                     let cut = |v: &Vec<String>| -> Vec<String> { v.iter().take_while(|x| *x != "LEX").cloned().collect() };
                     if cut(&got) != cut(&want) || (want.is_empty() != !text.contains("error")) && !want.iter().any(|x| x == "LEX") {
